@@ -1092,15 +1092,15 @@ func genLouvainMultiplex(g *vlib.G, large bool) {
 		{s: graphSpace{n: 2, directed: true}, L: 3, maxDev: 2},
 		// second phase
 		{s: graphSpace{n: 3, weighted: true}, L: 2, stride: vlib.Pick(g, 7, 1), offset: vlib.Pick(g, 1, 0), maxDev: 2, large: true},
-		{s: graphSpace{n: 4}, L: 2, stride: vlib.Pick(g, 9, 1), offset: vlib.Pick(g, 2, 0), maxDev: 2, maxRuns: 3000, large: true},
-		{s: graphSpace{n: 3, directed: true}, L: 2, stride: vlib.Pick(g, 5, 1), offset: vlib.Pick(g, 1, 0), maxDev: 2, maxRuns: 3000, large: true},
+		{s: graphSpace{n: 4}, L: 2, stride: vlib.Pick(g, 9, 3), offset: vlib.Pick(g, 2, 1), maxDev: 2, maxRuns: 3000, large: true},
+		{s: graphSpace{n: 3, directed: true}, L: 2, stride: vlib.Pick(g, 5, 3), offset: vlib.Pick(g, 1, 0), maxDev: 2, maxRuns: 3000, large: true},
 		{s: graphSpace{n: 3, directed: true, weighted: true}, L: 2, stride: vlib.Pick(g, 1009, 211), offset: 31, maxDev: 2, maxRuns: 3000, large: true},
 		{s: graphSpace{n: 4, weighted: true}, L: 2, stride: vlib.Pick(g, 3989, 499), offset: 77, maxDev: 2, maxRuns: 3000, large: true},
 		{s: graphSpace{n: 3, directed: true, weighted: true, alpha: alpha012}, L: 2, stride: vlib.Pick(g, 49999, 4999), offset: 123, maxDev: 2, maxRuns: 3000, large: true},
 		{s: graphSpace{n: 3}, L: 3, stride: vlib.Pick(g, 4, 1), offset: vlib.Pick(g, 1, 0), maxDev: 2, large: true},
 		{s: graphSpace{n: 3, weighted: true}, L: 3, stride: vlib.Pick(g, 199, 23), offset: 5, maxDev: 2, large: true},
-		{s: graphSpace{n: 3, directed: true}, L: 3, stride: vlib.Pick(g, 1999, 211), offset: 13, maxDev: 2, maxRuns: 3000, large: true},
-		{s: graphSpace{n: 4}, L: 3, stride: vlib.Pick(g, 1999, 211), offset: 21, maxDev: 2, maxRuns: 3000, large: true},
+		{s: graphSpace{n: 3, directed: true}, L: 3, stride: vlib.Pick(g, 1999, 499), offset: 13, maxDev: 2, maxRuns: 3000, large: true},
+		{s: graphSpace{n: 4}, L: 3, stride: vlib.Pick(g, 1999, 499), offset: 21, maxDev: 2, maxRuns: 3000, large: true},
 	} {
 		if x.large != large {
 			continue
